@@ -1,6 +1,7 @@
 import TD.C06.Lemmas
 import TD.C06.LemmasPlan
 import TD.C06.LemmasLoad
+import TD.C06.LemmasMulti
 
 /-!
 # C06 — LIS log pass frame sets are exact; any sub-selection is a sub-matrix
@@ -457,5 +458,117 @@ example : ∃ ops, (setFrameSet ⟨dfsrD, ⟨0, dfsrD.chans.map Chan.size⟩, 0,
     [(50, [0, 0] ++ frameD 0 ++ frameD 1 ++ frameD 2)] none (some ⟨0, 3, 2⟩) rfl rfl
     (by intro c hc; simp [dfsrD] at hc; rcases hc with rfl | rfl | rfl <;> decide)
     (by decide) (by decide) (by decide) (by decide) (by decide)).imp (fun _ h => h.1)
+
+/-! ## Sub-selection is a sub-matrix (direct X) — all channels, ANY number of data records
+
+For every direct-X log pass whose data records lie at strictly increasing file positions (any number of records, any
+frames-per-record pattern incl. short last and empty records), channel list `None`, every slice inside the frame
+count (any step, or `None`) and every earlier frame set: the load succeeds and row `i` of the matrix is `frameRow` of
+frame `start + i·step` — the words of all channels read from the record that holds the frame (`locate`, i.e. by
+`rle_lookup` what `RLEType01.tellLrForFrame` finds) at the frame's offset.
+Remaining gap to `setFrameSet_values`: proper channel subsets (see `setFrameSet_values_subset_partial` if present /
+the section comment above). -/
+theorem setFrameSet_values_allchannels_partial
+    (d : Dfsr) (k : Nat) (rle : List Item01) (st : Store) (fsOld : Option FrameSet) (sl : Option Sl)
+    (hrm : d.recMode = 0) (hk : d.chans.length = k + 1) (hok : d.sizesOk)
+    (hR : IncTells (expand rle))
+    (hst : ∀ tn ∈ expand rle, ∃ bs, Store.find st tn.1.toNat = some bs ∧ bs.head? = some d.dataType ∧
+      bs.length = 2 + tn.2 * sumN (d.chans.map Chan.size))
+    (hlt : (slOrAll sl (rle01Total rle)).start < (slOrAll sl (rle01Total rle)).stop)
+    (hstop : (slOrAll sl (rle01Total rle)).stop ≤ rle01Total rle) :
+    ∃ ops, (setFrameSet ⟨d, ⟨0, d.chans.map Chan.size⟩, 0, rle, fsOld⟩ st sl none).2 = .ok ops ∧
+      (setFrameSet ⟨d, ⟨0, d.chans.map Chan.size⟩, 0, rle, fsOld⟩ st sl none).1.frameSet.map (·.frames)
+        = some ((rangeList (slOrAll sl (rle01Total rle)).start (slOrAll sl (rle01Total rle)).stop
+                  (slOrAll sl (rle01Total rle)).step1).map (frameRow d st (expand rle))) := by
+  generalize hS : slOrAll sl (rle01Total rle) = S at hlt hstop
+  obtain ⟨a, b, c0⟩ := S
+  simp only at hlt hstop
+  have hstep : 0 < (Sl.mk a b c0).step1 := by unfold Sl.step1; split <;> omega
+  generalize hc : (Sl.mk a b c0).step1 = c at hstep
+  have hn0 : rle01Total rle ≠ 0 := by omega
+  -- located frames
+  let loc : Nat → Int × Nat := fun f => (locate (expand rle) f).getD (0, 0)
+  have hloc : ∀ f, f < b → locate (expand rle) f = some (loc f) := by
+    intro f hf
+    obtain ⟨r, hr⟩ := locate_lt (expand rle) f (by rw [← expand_total]; omega)
+    simp [loc, hr]
+  have htell : ∀ f ∈ rangeList a b c, rle01Tell rle f = .ok (loc f) := by
+    intro f hf
+    rw [rle01Tell_locate, hloc f (mem_rangeList a b c f hf).2]
+  obtain ⟨hG, hflat⟩ := foldMap_grouped c ((rangeList a b c).map loc) [] ⟨by simp, by simp⟩
+    (chain_of_frames (expand rle) hR c hstep loc a b (fun f _ h2 => hloc f h2))
+    (by cases (rangeList a b c).map loc with
+        | nil => trivial
+        | cons q _ => exact Or.inl rfl)
+  generalize hGdef : foldMap [] ((rangeList a b c).map loc) = G at hG hflat
+  simp only [flat, List.flatMap_nil, List.nil_append] at hflat
+  have hflat' : flat G = (rangeList a b c).map loc := hflat
+  have hmap : retFrameSetMap ⟨d, ⟨0, d.chans.map Chan.size⟩, 0, rle, fsOld⟩ ⟨a, b, c0⟩ = .ok G := by
+    unfold retFrameSetMap
+    simp only [hc]
+    rw [retFrameSetMapAux_fold rle loc _ htell, hGdef]
+    simp only [sortByKey_sorted G hG.1]
+  -- every entry is backed by a record of the store
+  have hent : ∀ e ∈ G, EntryOk d st c e := by
+    intro e he
+    obtain ⟨a', len, hbuf⟩ := hG.2 e he
+    have hmemflat : (e.1, a' + len * c) ∈ flat G := by
+      simp only [flat, List.mem_flatMap, List.mem_map]
+      refine ⟨e, he, a' + len * c, ?_, rfl⟩
+      rw [hbuf, ap]; simp only [List.mem_map, List.mem_range]; exact ⟨len, by omega, rfl⟩
+    rw [hflat'] at hmemflat
+    obtain ⟨f, hf, hlf⟩ := List.mem_map.1 hmemflat
+    have hlocf := hloc f (mem_rangeList a b c f hf).2
+    rw [hlf] at hlocf
+    obtain ⟨n, hmem, hlt'⟩ := locate_mem _ _ _ _ hlocf
+    obtain ⟨bs, h1, h2, h3⟩ := hst (e.1, n) hmem
+    exact ⟨a', len, n, bs, hbuf, h1, h2, h3, hlt'⟩
+  -- the new frame set
+  have hlenR : rangeLen a b c = (rangeList a b c).length := by simp [rangeList]
+  have hany : (List.range d.chans.length).any (fun e => decide (e ≥ d.chans.length)) = false := by
+    rw [List.any_eq_false]; intro e he; simp at he; simp; omega
+  have hnew : FrameSet.new d ⟨a, b, c0⟩ none 0
+      = .ok ⟨List.range d.chans.length, rangeLen a b c,
+          List.replicate (rangeLen a b c) (List.replicate (sumN ((List.range d.chans.length).map (fun e => ((d.chans[e]?).map Chan.numValues).getD 0))) none),
+          [], none⟩ := by
+    unfold FrameSet.new
+    simp only [hrm, hany, hc]
+    simp
+  have hrowsInit : ∀ row ∈ List.replicate (rangeLen a b c) (List.replicate (sumN ((List.range d.chans.length).map (fun e => ((d.chans[e]?).map Chan.numValues).getD 0))) (none : Option Nat)),
+      row.length = sumN (d.chans.map Chan.numValues) := by
+    intro row hm
+    rw [List.eq_of_mem_replicate hm, List.length_replicate]
+    congr 1
+    apply List.ext_getElem
+    · simp
+    · intro i h1 h2; simp at h1; simp [h1]
+  have hsum : (G.map (·.2.length)).sum = rangeLen a b c := by
+    rw [← flat_length, hflat', List.length_map, hlenR]
+  obtain ⟨evs, r', hgen, hex, hfs⟩ := entries_exec_all d st k c ⟨0, d.chans.map Chan.size⟩ rfl hk hok hstep G 0
+    ⟨none, 0, ⟨List.range d.chans.length, rangeLen a b c,
+          List.replicate (rangeLen a b c) (List.replicate (sumN ((List.range d.chans.length).map (fun e => ((d.chans[e]?).map Chan.numValues).getD 0))) none),
+          [], none⟩, []⟩ hent rfl hrowsInit (by simp [hsum])
+  have hnF : rangeLen a b c ≠ 0 := by
+    have := rangeLen_lt a b c hlt hstep; omega
+  have hevs : genFrameSetEvents ⟨d, ⟨0, d.chans.map Chan.size⟩, 0, rle, fsOld⟩ ⟨a, b, c0⟩ (List.range d.chans.length) = .ok evs := by
+    unfold genFrameSetEvents
+    rw [hmap]
+    simp only [hk]; exact hgen
+  unfold setFrameSet
+  simp only [hn0, if_false, hS, hnew, hnF, hevs, hex]
+  refine ⟨_, rfl, ?_⟩
+  simp only [Option.map_some, hfs, Option.some.injEq]
+  rw [setRows_full]
+  · rw [flat_rows (fun t off => rowOf d (bytesOf st t.toNat) off), hflat', List.map_map]
+    apply List.map_congr_left
+    intro f hf
+    simp only [Function.comp, frameRow, hloc f (mem_rangeList a b c f hf).2]
+  · rw [flat_rows (fun t off => rowOf d (bytesOf st t.toNat) off), hflat']
+    simp [hlenR]
+
+example : ∃ ops, (setFrameSet ⟨dfsrD, ⟨0, dfsrD.chans.map Chan.size⟩, 0, lpD.rle, none⟩ storeD (some ⟨1, 5, 2⟩) none).2 = .ok ops :=
+  (setFrameSet_values_allchannels_partial dfsrD 2 lpD.rle storeD none (some ⟨1, 5, 2⟩) rfl rfl
+    (by intro c hc; simp [dfsrD] at hc; rcases hc with rfl | rfl | rfl <;> decide)
+    (by unfold IncTells; decide) (by decide) (by decide) (by decide)).imp (fun _ h => h.1)
 
 end TD.C06
